@@ -25,8 +25,15 @@
        the small number; the harness bounds output, step count and allocation of a call by those
        of its twin (Twin).
 
-   Mode "time":   #time format code (index into the table of codes the running code knows, alone
-       and behind the "xr" roman-numeral prefix) x date shape.
+   Mode "time":   date/time function (index into the generated table of names that deal with dates:
+       #time and its aliases first — they take a format — then every CURRENT* / LOCAL* /
+       *time* / *date* word of the site) x format code (0 = none; else an index into the table of
+       codes the running code knows, alone and behind the "xr" roman-numeral prefix) x date shape.
+       The date shapes are a CLASS, built from fields: every reading of a pure digit string
+       (HHMM, HHMMSS, YYYYMMDD, YYYYMMDDHHMMSS) and the ISO forms, all fields in range or exactly
+       one field at a boundary or at its first out-of-range value (hour 24, minute 60, second 60,
+       month 0 / 13, day 0 / 32, ...); digit strings of every length 1..14 and very long ones;
+       relative words, unix timestamps, garbage, the empty string, no argument.
 
    Mode "junk":   all sequences of 1..MaxLex lexemes over the template alphabet (braces, pipes,
        "=", ":", "#", the noinclude family, nowiki, link brackets, a word, a template name, a
@@ -42,6 +49,8 @@ CONSTANTS Mode,        \* "calls" | "time" | "junk"
           Stride,      \* keep one in Stride of the 3-ary shape triples (1 = all)
           Phase,       \* which residue is kept (derived from the seed)
           NFormats,    \* time: size of the generated table of format codes
+          NTimeFns,    \* time: size of the generated table of date/time function names
+          NFormatFns,  \* time: the first NFormatFns of them take a format argument
           MaxLex,      \* junk: lexemes per sequence
           MaxDeepLex,  \* junk: lexemes per sequence that is also repeated Deep times
           Emit
@@ -63,7 +72,30 @@ Twin(ss) == [i \in 1..Len(ss) |-> IF ss[i] \in Inflated THEN "small" ELSE ss[i]]
 HasTwin(ss) == \E i \in 1..Len(ss) : ss[i] \in Inflated
 EdgeCount(ss) == Cardinality({i \in 1..Len(ss) : ss[i] \in EdgeSet})
 
-DateShapes == <<"none", "iso", "far", "year1", "digits4", "word", "relative", "epochbig", "datetime", "negative">>
+(* date shapes: token sequences, joined by the harness *)
+F(good, probes) == [good |-> good, probes |-> probes]
+Lit(s) == F(s, {})
+Hour   == F("12", {"00", "23", "24", "99"})
+Minute == F("30", {"00", "59", "60", "99"})
+Second == F("15", {"59", "60", "99"})
+Year   == F("2001", {"0000", "0001", "6000", "9999"})
+Month  == F("02", {"00", "01", "12", "13"})
+Day    == F("03", {"00", "01", "29", "31", "32"})
+\* all fields good, or exactly one field at one of its probe values
+OneBad(fs) == {[i \in 1..Len(fs) |-> fs[i].good]}
+              \cup UNION {{[i \in 1..Len(fs) |-> IF i = j THEN p ELSE fs[i].good] : p \in fs[j].probes} : j \in 1..Len(fs)}
+Run(c, n) == [i \in 1..n |-> c]
+DateShapeSet ==
+       OneBad(<<Hour, Minute>>) \cup OneBad(<<Hour, Minute, Second>>)
+  \cup OneBad(<<Year, Month, Day>>) \cup OneBad(<<Year, Month, Day, Hour, Minute, Second>>)
+  \cup OneBad(<<Year, Lit("-"), Month, Lit("-"), Day>>)
+  \cup OneBad(<<Year, Lit("-"), Month, Lit("-"), Day, Lit("T"), Hour, Lit(":"), Minute, Lit(":"), Second>>)
+  \cup OneBad(<<Year, Lit("-"), Month, Lit("-"), Day, Lit(" "), Hour, Lit(":"), Minute>>)
+  \cup OneBad(<<Hour, Lit(":"), Minute>>)
+  \cup {Run(c, n) : c \in {"0", "1", "9"}, n \in (1..14) \cup {40, 400}}
+  \cup {<<w>> : w \in {"now", "today", "yesterday", "tomorrow", "+1 day", "-1 day", "next monday", "last year", "1 January 2001",
+                       "garbage", "Foo bar", "@-1", "@0", "@1", "@99999999999999", "-5", "2.5", "1e9", " ", ""}}
+  \cup {<<"NONE">>}
 
 Lexemes == <<"{{", "}}", "{{{", "}}}", "|", "=", ":", "#", "<noinclude>", "</noinclude>", "<includeonly>", "</includeonly>",
              "<onlyinclude>", "</onlyinclude>", "<nowiki>", "</nowiki>", "[[", "]]", "a", "T", "#if:", "#switch:", "lc:">>
@@ -81,9 +113,10 @@ LexSeqs   == UNION {[1..k -> {Lexemes[i] : i \in 1..NLex}] : k \in 1..MaxLex}
 Init == /\ emitted = FALSE
         /\ CASE Mode = "calls" -> /\ name \in 1..NNames /\ shapes \in ShapeSeqs /\ Kept(name, shapes)
                                   /\ lex = <<>> /\ rep = 1
-             [] Mode = "time"  -> /\ name \in 1..NFormats
-                                  /\ shapes \in {<<p, DateShapes[d]>> : p \in {"plain", "xr"}, d \in 1..Len(DateShapes)}
-                                  /\ lex = <<>> /\ rep = 1
+             [] Mode = "time"  -> /\ name \in 1..NTimeFns
+                                  /\ shapes \in {<<0, "plain">>}
+                                                 \cup (IF name <= NFormatFns THEN {<<f, p>> : f \in 1..NFormats, p \in {"plain", "xr"}} ELSE {})
+                                  /\ lex \in DateShapeSet /\ rep = 1
              [] OTHER          -> /\ name = 0 /\ shapes = <<>> /\ lex \in LexSeqs
                                   /\ rep \in (IF Len(lex) <= MaxDeepLex THEN {1, Deep} ELSE {1})
 
@@ -93,8 +126,9 @@ Next == Hand
 Spec == Init /\ [][Next]_vars /\ WF_vars(Next)
 
 -----------------------------------------------------------------------------
-TypeOK == /\ name \in 0..(IF Mode = "time" THEN NFormats ELSE NNames)
-          /\ Len(shapes) <= (IF Mode = "time" THEN 2 ELSE MaxArity) /\ Len(lex) <= MaxLex
+TypeOK == /\ name \in 0..(IF Mode = "time" THEN NTimeFns ELSE NNames)
+          /\ Len(shapes) <= (IF Mode = "time" THEN 2 ELSE MaxArity)
+          /\ (Mode # "time" => Len(lex) <= MaxLex)
 \* the twin is a case of the same space, has no inflated shape, and is its own twin
 TwinLaw == Mode = "calls" =>
              /\ Twin(shapes) \in ShapeSeqs
@@ -105,6 +139,6 @@ AllHanded == <>emitted
 EmitCase ==
   (Emit /\ emitted) =>
     CASE Mode = "calls" -> PrintT("@@" \o ToJson([n |-> name, s |-> shapes, twin |-> IF HasTwin(shapes) THEN Twin(shapes) ELSE <<>>]))
-      [] Mode = "time"  -> PrintT("@@" \o ToJson([f |-> name, pre |-> shapes[1], date |-> shapes[2]]))
+      [] Mode = "time"  -> PrintT("@@" \o ToJson([fn |-> name, f |-> shapes[1], pre |-> shapes[2], date |-> lex]))
       [] OTHER          -> PrintT("@@" \o ToJson([lex |-> lex, rep |-> rep]))
 =============================================================================
